@@ -672,6 +672,21 @@ func (l *lexer) lexRedir() action {
 		}
 	case IO_NUMBER:
 		goto Redir
+	case WORD:
+		// reserved words that may follow a compound command
+		switch tok = l.tr(tok); tok {
+		case Elif:
+			return l.lexElif
+		case Then:
+			return l.lexThen
+		case Else:
+			return l.lexElse
+		case Do:
+			return l.lexDo
+		case Rbrace, Esac, Fi, Done:
+		default:
+			tok = WORD
+		}
 	}
 	return l.lexToken(tok)
 Redir:
